@@ -193,7 +193,8 @@ def check(case, rec: Rec) -> None:
                             if y == x:
                                 raise Violation("missed-stamp", f"{hist}\n{rel}:{i + 1}: {x!r} was edited since the page was "
                                                 f"last indexed but was not stamped")
-                            if y != want:
+                            # (the statement does not fix the spacing inside the rewritten prefix)
+                            if y.split() != want.split():
                                 raise Violation("wrong-stamp", f"{hist}\n{rel}:{i + 1}: {x!r} -> {y!r}, expected {want!r}")
                         else:
                             if not re.search(r"^\S( P\d)? (\d{6} )?" + _ZID + r"( |$)", y):
